@@ -339,7 +339,7 @@ def run(tier, seed, replay=None):
             exprs.append(e)
             idx.append((i, cls))
     try:
-        verdicts = cm.coq_eval_lines(PID, nb.COQ_HEADER, exprs, tag="cert", per_file=20, timeout=1500)
+        verdicts = nb.coq_eval_retry(PID, nb.COQ_HEADER, exprs, "cert", 20, ["theories/Props/C02.vo"])
     except RuntimeError as e:
         R.proof_broken.append(f"certificate evaluation failed: {str(e)[:400]}")
         verdicts = []
